@@ -420,7 +420,62 @@ def ref_lendet_len(n):
     return 1 if n < 128 else 1 + max(1, (n.bit_length() + 7) // 8)
 
 
+def _ref_header(data, offset):
+    """(offset of the length octets, value of the length field or 'indef', offset of the contents) or None when the header is cut"""
+    if offset >= len(data):
+        return None
+    i = offset + 1
+    if data[offset] & 0x1f == 0x1f:
+        while True:
+            if i >= len(data):
+                return None
+            i += 1
+            if not data[i - 1] & 0x80:
+                break
+    if i >= len(data):
+        return None
+    first = data[i]
+    if first < 0x80:
+        return i, first, i + 1
+    if first == 0x80:
+        return i, 'indef', i + 1
+    k = first & 0x7f
+    if i + 1 + k > len(data):
+        return None
+    return i, int.from_bytes(data[i + 1:i + 1 + k], 'big'), i + 1 + k
+
+
+def ref_decode_full_length(data):
+    h = _ref_header(bytes(data), 0)
+    if h is None:
+        return None
+    if h[1] == 'indef':
+        return 'raised DecodeError'
+    return h[2] + h[1]
+
+
+def ref_skip_tag(data, offset):
+    h = _ref_header(bytes(data), offset)
+    if h is None:
+        # skip_tag needs the identifier octets and one more octet
+        d = bytes(data)
+        i = offset + 1
+        if offset >= len(d):
+            return 'raised OutOfByteDataError'
+        if d[offset] & 0x1f == 0x1f:
+            while True:
+                if i >= len(d):
+                    return 'raised OutOfByteDataError'
+                i += 1
+                if not d[i - 1] & 0x80:
+                    break
+        return i if i < len(d) else 'raised OutOfByteDataError'
+    return h[0]
+
+
 REFERENCES = {
+    'ber.decode_full_length': (ref_decode_full_length, None),
+    'ber.skip_tag': (ref_skip_tag, None),
     'ber.encode_length_definite': (ref_ber_length, lambda n: n < 256 ** 127),
     'ber.encode_tag': (ref_tag(31), None),
     'oer.encode_tag': (ref_tag(63), None),
@@ -464,7 +519,10 @@ def reference_search(sink, prefixes, seed, n_rand=400):
         gen = FUNCTION_DOMAINS[key]
         arity = len(gen(rng))
         cases = [gen(rng) for _ in range(n_rand)]
-        if arity == 1:
+        first_is_int = isinstance(cases[0][0], int) and not isinstance(cases[0][0], bool)
+        if not first_is_int:
+            pass                                                  # (octet strings: the random / shaped generator is the sweep)
+        elif arity == 1:
             cases += [[n] for n in SWEEP]
         elif key != 'c_uper.does_bits_match_range':              # (its first argument is an exponent)
             cases += [[n] + gen(rng)[1:] for n in SWEEP]
@@ -475,6 +533,8 @@ def reference_search(sink, prefixes, seed, n_rand=400):
                 got = canon_out(f(*args))
             except Exception as e:
                 got = 'raised ' + type(e).__name__
+                if key == 'ber.skip_tag' and got != 'raised OutOfByteDataError' and isinstance(e, Exception):
+                    got = 'raised ' + type(e).__name__
             want = canon_out(ref(*args))
             sink.count('reference.' + key)
             if got != want:
